@@ -20,6 +20,7 @@ import (
 	"strings"
 	"time"
 
+	"github.com/prometheus/prometheus/model/labels"
 	"github.com/prometheus/prometheus/promql/parser"
 
 	"github.com/thanos-community/promql-engine/logicalplan"
@@ -166,6 +167,13 @@ func (t *treeGen) tree(d int) string {
 		default:
 			return fmt.Sprintf("%s %s (%s)", lit, pick(t.r, []string{"<", ">=", "!=", "== bool", "> bool"}), t.tree(d-1))
 		}
+	case k < 9 && t.r.Intn(3) == 0: // topk / bottomk with a literal k
+		op := pick(t.r, []string{"topk", "bottomk"})
+		kk := pick(t.r, []string{"0", "1", "2", "3", "5", "-1", "2.7"})
+		if t.r.Intn(2) == 0 {
+			return fmt.Sprintf("%s without (%s) (%s, %s)", op, t.labelList(false), kk, t.tree(d-1))
+		}
+		return fmt.Sprintf("%s by (%s) (%s, %s)", op, t.labelList(false), kk, t.tree(d-1))
 	default: // aggregation
 		op := pick(t.r, []string{"count", "count", "sum", "max", "min", "group"})
 		if t.r.Intn(2) == 0 {
@@ -200,6 +208,41 @@ func translateSeries(n *parser.VectorSelector, c *Case, u *Universe) (string, st
 		ss[k] = coqList(xs)
 	}
 	return coqList(ls), coqList(ss), true
+}
+
+// topkTies: at some step two samples of one group of the aggregation's operand have the same value
+func topkTies(n *parser.AggregateExpr, c *Case) bool {
+	cfg := c.Cfg()
+	cfg.Optimizers = logicalplan.NoOptimizers
+	opnd, _ := runQuery(newImpl(cfg), NewStore(c.Data), cfg, n.Expr.String(), c.Window)
+	if opnd.Kind == "error" {
+		return true
+	}
+	type key struct {
+		t int64
+		g string
+		v float64
+	}
+	seen := map[key]bool{}
+	for _, s := range opnd.Series {
+		b := labels.NewBuilder(s.Labels)
+		var g labels.Labels
+		if n.Without {
+			b.Del(n.Grouping...)
+			b.Del(labels.MetricName)
+			g = b.Labels(nil)
+		} else {
+			g = b.Keep(n.Grouping...).Labels(nil)
+		}
+		for _, p := range s.Points {
+			k := key{p.T, g.String(), p.V}
+			if seen[k] {
+				return true
+			}
+			seen[k] = true
+		}
+	}
+	return false
 }
 
 // translate turns the preprocessed plan into a Trees.jtree term.
@@ -251,6 +294,24 @@ func translateTree(e parser.Expr, c *Case, u *Universe) (string, bool) {
 		}
 		if code, isAcc := map[parser.ItemType]int{parser.SUM: 0, parser.MAX: 1, parser.MIN: 2, parser.GROUP: 3}[n.Op]; isAcc {
 			return fmt.Sprintf("(JAgg (zinit %d%%N) (zadd %d%%N) %s %s %s)", code, code, coqBool(n.Without), u.nameList(n.Grouping), t), ok
+		}
+		if n.Op == parser.TOPK || n.Op == parser.BOTTOMK {
+			p := n.Param
+			if si, isSI := p.(*parser.StepInvariantExpr); isSI {
+				p = si.Expr
+			}
+			lit, isLit := p.(*parser.NumberLiteral)
+			if !isLit || math.IsNaN(lit.Val) || math.Abs(lit.Val) > 1e6 {
+				return "", false
+			}
+			kk := int64(lit.Val)
+			if kk < 0 {
+				kk = 0
+			}
+			if ok && topkTies(n, c) {
+				return "", false // the real heap's choice among equal values depends on its layout
+			}
+			return fmt.Sprintf("(JTopk %s %d %s %s %s)", coqBool(n.Op == parser.BOTTOMK), kk, coqBool(n.Without), u.nameList(n.Grouping), t), ok
 		}
 		if n.Op != parser.COUNT {
 			return "", false
